@@ -50,3 +50,25 @@ From Dolt Require Import C22.OracleProofs.
 Theorem C22_oracle_accepts_model : forall i, C22.Corr.oracle i (C22.Corr.model_obs i) = true.
 Proof. exact C22.OracleProofs.oracle_accepts_model. Qed.
 Print Assumptions C22_oracle_accepts_model.
+
+(* ---- AS OF / revision reads inside a transaction ---- *)
+From Dolt Require Import C23.Staged C22.AsOf C22.AsOfProofs.
+
+Theorem C22_start_roots_stable :
+  forall U sched w i,
+    t_active (w3_ss w i) = true ->
+    (forall st, In (i, st) sched -> keeps_txn st = true) ->
+    t_start (w3_ss (snd (run3 U sched w)) i) = t_start (w3_ss w i)
+    /\ t_active (w3_ss (snd (run3 U sched w)) i) = true.
+Proof. exact start_roots_stable. Qed.
+Print Assumptions C22_start_roots_stable.
+
+Theorem C22_as_of_head_snapshot_stable :
+  forall U sched w i k,
+    t_active (w3_ss w i) = true ->
+    (forall st, In (i, st) sched -> keeps_txn st = true) ->
+    k < 2 ->
+    fst (fst (gstep3 U (do_commit3 U) i (SReadAs k) (snd (run3 U sched w))))
+    = obs_rows (dump U (r_head (t_start (w3_ss w i)))).
+Proof. exact as_of_head_snapshot_stable. Qed.
+Print Assumptions C22_as_of_head_snapshot_stable.
